@@ -7,8 +7,11 @@
          byte order denotes.
   T12.2  consumers never see 0 / even: `Produced k v → Inv k v` over the inductive set of obtainable
          wrapper values (CB.Wrappers.Produced).
-  Negative theorems (the full statement is false of the code): derived `Default for Odd`,
-  `Odd::from_le_hex`, `NonZero::from_le_byte_array`, `Zeroize`.
+  Negative theorem (the full statement is false of the code; recorded finding C12-zeroize): `Zeroize`.
+  Three former negative theorems (derived `Default for Odd`, `Odd::from_le_hex`,
+  `NonZero::from_le_byte_array`; DESIGN §7 rows 1, 2, 9) became the positive full statements after the
+  `fix:` commits 03a5470, dd30bc0, ad61352 in /repo: `oddDefault_valid`, `oddLimbDefault_valid`,
+  `oddDefault_as_nz_valid`, `oddFromLeHex_valid`, `nzFromLeByteArray_spec`.
 
   Refinements owned by other properties and used on values: byte/hex decoding of `Uint` (C16),
   `Uint::MAX >> 1` (C05), `wrapping_neg_if` limb chain (C04: `negLoop_spec`).
@@ -179,29 +182,24 @@ theorem nzIntMax_valid {n : Nat} (hn : n ≠ 0) :
   generalize B ^ n = K at *
   omega
 
-/- FULL STATEMENT (false of the code — DESIGN §7 row 1):
-     theorem oddDefault_valid (n : Nat) (v : List Nat) (h : oddDefault n = .ok v) : OddV v
-   `#[derive(Default)]` on `Odd<T>` yields `Odd(T::default())` = `Odd(0)`.  The negations, with witnesses: -/
+/-- T12.1 `Default for Odd<Uint>` / `Odd<Int>` (hand-written since fix 03a5470: `Self(T::one())`): holds 1 -/
+theorem oddDefault_valid {n : Nat} (hn : n ≠ 0) :
+    oddDefault n = .ok (uone n) ∧ WF (uone n) ∧ val (uone n) = 1 ∧ OddV (uone n) := by
+  refine ⟨rfl, uone_WF n, val_uone hn, ?_⟩
+  unfold OddV; rw [val_uone hn]
 
-/-- negative: `Odd::<Uint<1>>::default()` holds an even value -/
-theorem oddDefault_invalid : ¬ (∀ (n : Nat) (v : List Nat), oddDefault n = .ok v → OddV v) := by
-  intro h
-  have := h 1 [0] rfl
-  exact absurd this (by unfold OddV; decide)
+/-- T12.1 every value returned by `Odd::<Uint|Int>::default()` is odd (the former FULL STATEMENT) -/
+theorem oddDefault_odd {n : Nat} (hn : n ≠ 0) (v : List Nat) (h : oddDefault n = .ok v) : OddV v := by
+  injection h with h; subst h; exact (oddDefault_valid hn).2.2.2
 
-/-- negative: for every width the derived default holds exactly zero -/
-theorem oddDefault_is_zero (n : Nat) : oddDefault n = .ok (uzero n) ∧ val (uzero n) = 0 ∧ ¬ OddV (uzero n) := by
-  refine ⟨rfl, val_uzero n, ?_⟩
-  unfold OddV; rw [val_uzero]; decide
+/-- T12.1 `Odd::<Limb>::default()` holds 1, `Odd::<BoxedUint>::default()` holds the one-limb value 1 -/
+theorem oddLimbDefault_valid : oddLimbDefault = .ok 1 ∧ oddBoxedDefault = .ok [1] ∧ OddV [1] ∧ WF [1] :=
+  ⟨rfl, rfl, by unfold OddV; decide, WF_cons.mpr ⟨by decide, WF_nil⟩⟩
 
-/-- negative: `Odd::<Limb>::default()` and `Odd::<BoxedUint>::default()` hold zero -/
-theorem oddLimbDefault_invalid : oddLimbDefault = .ok 0 ∧ oddBoxedDefault = .ok [0] ∧ ¬ OddV [0] :=
-  ⟨rfl, rfl, by unfold OddV; decide⟩
-
-/-- negative, consequence: `Odd::default().as_nz_ref()` is a `NonZero` holding zero -/
-theorem oddDefault_as_nz_invalid :
-    ∃ a v, oddDefault 1 = .ok a ∧ oddAsNzRef a = .ok v ∧ ¬ NZ v :=
-  ⟨[0], [0], rfl, rfl, by unfold NZ; decide⟩
+/-- T12.1 consequence: `Odd::default().as_nz_ref()` is a `NonZero` holding 1 -/
+theorem oddDefault_as_nz_valid {n : Nat} (hn : n ≠ 0) :
+    ∃ a v, oddDefault n = .ok a ∧ oddAsNzRef a = .ok v ∧ NZ v :=
+  ⟨uone n, uone n, rfl, rfl, by unfold NZ; rw [val_uone hn]; decide⟩
 
 /-! ## byte decoders -/
 
@@ -234,20 +232,16 @@ theorem nzFromLeBytes_spec {n : Nat} {bs : List Nat} (h : bs.length = 8 * n) :
   have hw : WF (uintFromLeBytes n bs) := toLimbs_WF _ _
   rw [nzNew_spec hw, val_uintFromLeBytes h]
 
-/- FULL STATEMENT (false of the code — DESIGN §7 row 9):
-     theorem nzFromLeByteArray_spec {n bs} (h : bs.length = 8 * n) :
-       nzFromLeByteArray n bs = if leVal bs = 0 then .none else .ok (uintFromLeBytes n bs)
-   `NonZero::from_le_byte_array` calls `T::from_be_byte_array`. -/
+/-- T12.1 `NonZero::<Uint>::from_le_byte_array` (since fix ad61352): little-endian value, zero rejected
+    (the former FULL STATEMENT) -/
+theorem nzFromLeByteArray_spec {n : Nat} {bs : List Nat} (h : bs.length = 8 * n) :
+    nzFromLeByteArray n bs = (if leVal bs = 0 then .none else .ok (uintFromLeBytes n bs)) ∧
+    nzFromLeByteArray n bs = nzFromLeBytes n bs ∧
+    val (uintFromLeBytes n bs) = leVal bs :=
+  ⟨(nzFromLeBytes_spec h).1, rfl, val_uintFromLeBytes h⟩
 
-/-- negative: the array `01 00 00 00 00 00 00 00` (little-endian 1) is decoded as `2^56` -/
-theorem nzFromLeByteArray_wrong_order :
-    nzFromLeByteArray 1 [1, 0, 0, 0, 0, 0, 0, 0] = .ok [72057594037927936] ∧
-    nzFromLeByteArraySpec 1 [1, 0, 0, 0, 0, 0, 0, 0] = .ok [1] := by
-  constructor <;> decide
-
-/-- what the code does instead: exactly the BIG-endian constructor (so the result is still non-zero) -/
-theorem nzFromLeByteArray_is_be (n : Nat) (bs : List Nat) :
-    nzFromLeByteArray n bs = nzFromBeByteArray n bs := rfl
+/-- the former witness now decodes correctly: `01 00 00 00 00 00 00 00` is 1 -/
+theorem nzFromLeByteArray_witness : nzFromLeByteArray 1 [1, 0, 0, 0, 0, 0, 0, 0] = .ok [1] := by decide
 
 /-! ## hex constructors of `Odd<Uint>` -/
 
@@ -282,24 +276,29 @@ theorem oddFromBeHex_valid {n : Nat} {cs v : List Nat} (h : oddFromBeHex n cs = 
       have : bs.length = 8 * n := by simp only [ne_eq, Decidable.not_not] at hl; omega
       exact ⟨toLimbs_WF _ _, ho, by simpa using hl, bs, hb, val_uintFromBeBytes this⟩
 
-/- FULL STATEMENT (false of the code — DESIGN §7 row 2):
-     theorem oddFromLeHex_spec (n cs) : oddFromLeHex n cs = oddFromLeHexSpec n cs
-   `Odd::from_le_hex` calls `Uint::from_be_hex`. -/
+/-- T12.1 `Odd::<Uint>::from_le_hex` (since fix dd30bc0): odd, and the value is the LITTLE-endian reading of
+    the `16n` hex digits (the former FULL STATEMENT) -/
+theorem oddFromLeHex_valid {n : Nat} {cs v : List Nat} (h : oddFromLeHex n cs = .ok v) :
+    WF v ∧ val v % 2 = 1 ∧ cs.length = 16 * n ∧ ∃ bs, hexBytes? cs = some bs ∧ val v = leVal bs := by
+  have ⟨hr, ho⟩ := assertOdd_ok h
+  unfold uintFromLeHex at hr
+  split at hr
+  · exact absurd hr (by simp)
+  · rename_i hl
+    split at hr
+    · exact absurd hr (by simp)
+    · rename_i bs hb
+      injection hr with hr; subst hr
+      have hlen := hexBytes_length cs bs hb
+      have : bs.length = 8 * n := by simp only [ne_eq, Decidable.not_not] at hl; omega
+      exact ⟨toLimbs_WF _ _, ho, by simpa using hl, bs, hb, val_uintFromLeBytes this⟩
 
-/-- negative: little-endian text "0100000000000000" denotes 1 (odd) and is REJECTED -/
-theorem oddFromLeHex_rejects_odd :
-    oddFromLeHex 1 [48, 49, 48, 48, 48, 48, 48, 48, 48, 48, 48, 48, 48, 48, 48, 48] = .panic ∧
-    oddFromLeHexSpec 1 [48, 49, 48, 48, 48, 48, 48, 48, 48, 48, 48, 48, 48, 48, 48, 48] = .ok [1] := by
+/-- the former witnesses now behave as the name says: little-endian "0100000000000000" is 1 (accepted),
+    little-endian "0000000000000001" is 2^56 (even, rejected) -/
+theorem oddFromLeHex_witnesses :
+    oddFromLeHex 1 [48, 49, 48, 48, 48, 48, 48, 48, 48, 48, 48, 48, 48, 48, 48, 48] = .ok [1] ∧
+    oddFromLeHex 1 [48, 48, 48, 48, 48, 48, 48, 48, 48, 48, 48, 48, 48, 48, 48, 49] = .panic := by
   constructor <;> decide
-
-/-- negative: little-endian text "0000000000000001" denotes 2^56 (even) and is ACCEPTED, as the value 1 -/
-theorem oddFromLeHex_accepts_even :
-    oddFromLeHex 1 [48, 48, 48, 48, 48, 48, 48, 48, 48, 48, 48, 48, 48, 48, 48, 49] = .ok [1] ∧
-    oddFromLeHexSpec 1 [48, 48, 48, 48, 48, 48, 48, 48, 48, 48, 48, 48, 48, 48, 48, 49] = .panic := by
-  constructor <;> decide
-
-/-- what the code does instead: exactly the big-endian constructor (the result, if any, is still odd) -/
-theorem oddFromLeHex_is_be (n : Nat) (cs : List Nat) : oddFromLeHex n cs = oddFromBeHex n cs := rfl
 
 /-! ## conditional selection -/
 
@@ -723,8 +722,7 @@ theorem swap_inv {k : Kind} {a b : List Nat} {c : Nat} (ha : Inv k a) (hb : Inv 
 /-- T12.2 Every wrapper value obtainable through the (non-excluded) producers satisfies its invariant:
     a `NonZero` never holds 0, an `Odd` never holds an even number.  Hence `div_rem`, `rem`,
     `MontyParams::new`, `inv_odd_mod`, … never observe a zero divisor or an even / zero modulus,
-    PROVIDED the wrapper was not obtained from `Odd::default()` or mutated by `zeroize()`
-    (the excluded producers; see the negative theorems above). -/
+    PROVIDED the wrapper was not mutated by `zeroize()` (the excluded producer; see `wrapZeroize_invalid`). -/
 theorem produced_valid {k : Kind} {v : List Nat} (h : Produced k v) : Inv k v := by
   induction h with
   | nzLimbNew hx e =>
@@ -814,11 +812,20 @@ theorem produced_valid {k : Kind} {v : List Nat} (h : Produced k v) : Inv k v :=
     exact ⟨hw, by unfold NZ; rw [hv]; exact iha.2⟩
   | nzSame _ e iha => injection e with e; subst e; exact iha
   | oddAsNzRef _ e iha => injection e with e; subst e; exact ⟨iha.1, odd_ne_zero iha.2⟩
+  | oddLimbDefault e =>
+    injection e with e; subst e
+    exact ⟨WF_cons.mpr ⟨by decide, WF_nil⟩, by unfold OddV; decide⟩
+  | @oddDefault n v hn e =>
+    injection e with e; subst e
+    exact ⟨uone_WF n, (oddDefault_valid hn).2.2.2⟩
+  | oddBoxedDefault e =>
+    injection e with e; subst e
+    exact ⟨WF_cons.mpr ⟨by decide, WF_nil⟩, by unfold OddV; decide⟩
   | oddNew hw e => exact oddNew_ok hw e
   | uintToOdd hw e => exact uintToOdd_ok hw e
   | uintToOddExpect hw e => exact uintToOdd_ok hw (expectRes_ok e)
   | oddFromBeHex e => have ⟨hw, ho, _⟩ := oddFromBeHex_valid e; exact ⟨hw, ho⟩
-  | oddFromLeHex e => have ⟨hw, ho, _⟩ := oddFromBeHex_valid e; exact ⟨hw, ho⟩
+  | oddFromLeHex e => have ⟨hw, ho, _⟩ := oddFromLeHex_valid e; exact ⟨hw, ho⟩
   | oddSelect _ _ hl hc e iha ihb => exact select_inv iha ihb hl hc e
   | oddSwapFst _ _ hl hc iha ihb => exact (swap_inv iha ihb hl hc).1
   | oddSwapSnd _ _ hl hc iha ihb => exact (swap_inv iha ihb hl hc).2
